@@ -626,7 +626,13 @@ fn completeness(world: &World, zi: usize, rt: &tokio::runtime::Runtime, l: &mut 
         let star = name.0.iter().any(|l| l.as_slice() == b"*") || attached.iter().any(|r| has_interior_star(&r.owner) || has_interior_star(&r.next));
         // one primary scene flag
         let flag = if !valid {
-            ""
+            // what the known server-side gap looks like: the closest encloser is not the parent of
+            // the query name, so the NSEC for `*.<closest encloser>` is not the one the server picks
+            if name.strictly_below(&zone.origin) && zone.closest_encloser(&name) == name.parent() {
+                ":ce=parent"
+            } else {
+                ":ce=above-parent"
+            }
         } else if let Claim::Wildcard { source, .. } = &claim {
             if name.parent() == source.parent() {
                 // expansion to a name directly below the wildcard's parent
@@ -772,9 +778,11 @@ fn main() {
 
     let n = worlds.len() as u64;
     let stride = (n / 10).max(1);
+    // one "case" of the watchdog is a whole world (up to ~10^5 decisions + end-to-end replays)
+    ctx.case_timeout_s.store(600, Ordering::Relaxed);
     ctx.par_run_init(
         n,
-        2,
+        1,
         |_| vsim::rt(),
         |i, l, rt| match build_world(&worlds[i as usize]) {
             Ok(w) => run_world(&w, rt, l, &cnt, i % stride == 0 || i == n - 1),
